@@ -281,9 +281,15 @@ impl TxPool {
         for entry in removed {
             let tx_hash = entry.transaction().hash();
             debug!("remove_expired {} timestamp({})", tx_hash, entry.timestamp);
-            self.pool_map.remove_entry(&entry.proposal_short_id());
-            let reject = Reject::Expiry(entry.timestamp);
-            callbacks.call_reject(self, &entry, reject);
+            // an expired entry leaves together with its descendants (they cannot be committed
+            // without it), which also keeps the aggregates of the remaining entries exact
+            for gone in self
+                .pool_map
+                .remove_entry_and_descendants(&entry.proposal_short_id())
+            {
+                let reject = Reject::Expiry(gone.timestamp);
+                callbacks.call_reject(self, &gone, reject);
+            }
         }
     }
 
